@@ -68,6 +68,13 @@ impl InstructionProperties for ParserNode {
         }
     }
 
+    fn is_indirect_call(&self) -> bool {
+        match self {
+            ParserNode::JumpLinkR(x) => x.rd == Register::X1,
+            _ => false,
+        }
+    }
+
     fn is_ecall(&self) -> bool {
         match self {
             ParserNode::Basic(x) => x.inst == BasicType::Ecall,
